@@ -101,15 +101,33 @@ func (c *FnCtx) initLiteralGlobals(st *State, fd *ast.FuncDecl) {
 	}
 	seen := map[types.Object]bool{}
 	var order []types.Object
-	ast.Inspect(fd.Body, func(n ast.Node) bool {
-		if id, ok := n.(*ast.Ident); ok {
-			if o := p.Info.Uses[id]; o != nil && g.init[o] != nil && !g.assigned[o] && !seen[o] {
-				seen[o] = true
-				order = append(order, o)
+	scan := func(root ast.Node) {
+		ast.Inspect(root, func(n ast.Node) bool {
+			if id, ok := n.(*ast.Ident); ok {
+				if o := p.Info.Uses[id]; o != nil && g.init[o] != nil && !g.assigned[o] && !seen[o] {
+					seen[o] = true
+					order = append(order, o)
+				}
+			}
+			return true
+		})
+	}
+	scan(fd.Body)
+	// the contract's clauses may mention such a table too (a postcondition that reads ΛEnum)
+	if c.con != nil {
+		var cls []*Clause
+		cls = append(append(cls, c.con.Requires...), c.con.Ensures...)
+		for _, l := range c.con.Loops {
+			cls = append(cls, l...)
+		}
+		for _, cl := range cls {
+			if cl.GoFn != "" {
+				if sd := c.synthDecl(cl.GoFn, p); sd != nil && sd.Body != nil {
+					scan(sd.Body)
+				}
 			}
 		}
-		return true
-	})
+	}
 	for _, o := range order {
 		v := o.(*types.Var)
 		lit := g.init[o].(*ast.CompositeLit)
